@@ -44,16 +44,30 @@ T={
 'C20-r2s1':('C20','event loop notifies recvNotifyCh only when no callbacks are installed','OnData blocked in a read for more than has arrived when the rest arrives','caught by C11 (ReadBytes inside a data callback x data); C20\'s own blocking-read case has the rest already pending when the read starts'),
 'C20-r2s2':('C20','offerToCallback accepts every state but closed','Close() during OnData with unconsumed data','fired at once (C20)'),
 }
+
+T3={
+'C05-r3s1':('C05','handlePolling returns early when the receive queue is empty (skips markNotWorking)','two producers: A put, its element drained by another wake-up, A\'s late wakeUpPeer raises the flag for an empty queue','fired at once (C05)'),
+'C07-r3s1':('C07','(same edit as C06-s1 / C08-r2s1, found independently) fallback payload aliases the connection read buffer','socket-carried message unread while more socket traffic arrives','fired at once (C07)'),
+'C10-r3s1':('C10','close(): transport of the close notification chosen by sendBuf.isFromShareMemory() (always true after clean()) instead of !inFallbackState','last Flush went out on the socket, then Close while the peer\'s consumer is busy','fired at once (C10 and C07; behaves like reverting fix X8)'),
+'C11-r3s1':('C11','(same edit as C20-r2s1, found independently) recvNotifyCh only notified without callbacks','OnData blocked in a read when the rest of the data arrives','fired at once (C11, call type added after round 2)'),
+'C11-r3s2':('C11','SessionManager.checkHotRestart: give-up timer re-created in every loop iteration','hot restart announced, new server never comes up: manager stays in hot-restart state, SessionManager.Close hangs','caught by C16 (new-not-accepting); C11 has no SessionManager calls in its table (the blocked call is not a stream or session call)'),
+'C14-r3s1':('C14','session teardown no longer waits for a running OnData before releasing the memory','callback stream whose OnData is still working on its zero-copy data when the peer goes away','as written it no longer applies (fix X22 touches the same lines); rebased (patch.diff; the author\'s diff is patch_as_written.diff). The first run against it exposed a defect of the unchanged tree (fix X22); C14 got a lingering OnData style and its F2 classifier now refuses faults on the callback goroutine -> FIRED'),
+'C15-r3s1':('C15','(same edit as C10-r2s1, found independently) Stream.reset clears the callbacks first','pooled callback-mode stream put back from inside OnData with unread data','caught by C10 (put-back-in-OnData cases added after round 2); C15\'s pool workload uses no callbacks'),
+'C17-r3s1':('C17','checkHotRestart only started once a pool was replaced','hot restart announced while the new server is unreachable for every pool','caught by C16 (new-not-accepting: manager stuck in hot-restart state); C17\'s scenarios always have a reachable new server'),
+'C19-r3s1':('C19','Stream.close drops the second safeCloseNotify (the only one reached by a local close of a non-callback stream)','a Read without deadline blocked on a conn that another goroutine closes','caught by C11 at once; C19 then got blocked-Read-released-by-local-Close rounds -> FIRED as well'),
+'C19-r3s2':('C19','readMore\'s close arm no longer moves pending data into the read buffer','reader between its first moveTo and its select while the peer\'s last data and its close are processed','caught by C07 (end of stream reported before flushed bytes); C19 and C11 do not reach the window'),
+}
 def main():
-    for sid,(prop,chg,needs,res) in sorted(T.items()):
+    ALL=dict(T); ALL.update(T3)
+    for sid,(prop,chg,needs,res) in sorted(ALL.items()):
         p='%s/seeded/%s/meta.json'%(V,sid)
         if os.path.exists(p):
             m=json.load(open(p))
-            m.update(property=prop,change=chg,needs_to_manifest=needs,result=res,round=2,
+            m.update(property=prop,change=chg,needs_to_manifest=needs,result=res,round=(3 if '-r3s' in sid else 2),
               what_i_ran='tools/seedcheck.py (patch applied to a scratch worktree of /repo HEAD, built with and without -tags verif, the author\'s demonstration run with and without the change) + tools/r2final.py (repository suite with the change in a private namespace; owning and sibling checks at quick tier against the changed tree)')
             json.dump(m,open(p,'w'),indent=1)
-    if len(sys.argv)>1 and sys.argv[1]=='table':
+    if len(sys.argv)>1 and sys.argv[1] in ('table','table3'):
         print('| id | property | change | needs to manifest | result |\n|---|---|---|---|---|')
-        for sid,(prop,chg,needs,res) in sorted(T.items()):
+        for sid,(prop,chg,needs,res) in sorted((T if sys.argv[1]=='table' else T3).items()):
             print('| %s | %s | %s | %s | %s |'%(sid,prop,chg,needs,res))
 main()
